@@ -572,7 +572,7 @@ fn one_case(b: Built, rng: &mut Rng, case: u64) -> CaseOut {
             decided = false;
         }
         (Verdict::Accept(img) | Verdict::Either(img), AsmOutcome::Ok(got)) => {
-            if img.words != got.words || img.orig != got.orig {
+            if img.words != got.words || img.origin() != got.origin() {
                 out.violate(
                     format!("C04/accepted-with-wrong-image/{}", kind),
                     case,
